@@ -512,25 +512,50 @@ def r5_strip_set(ctx):
 
 # --------------------------------------------------------------------------- R6
 def r6_isa_not_subsplit(ctx):
+    """With the segment id pinned to 'ISA', constant propagation through the function (the separators are symbolic
+    constants) gives the separator each reachable Composite(...) construction is built with.
+    __init__: no ISA element may be built with the component separator (whatever the element's position);
+    set: an ISA special case exists and does not use it."""
+    from ..absint import explore
     for qual in ('Segment.__init__', 'Segment.set'):
         fn = ctx.func('segment', qual)
         g = ctx.cfg(fn)
-        from ..cfg import must_facts, eq_value
-        IN = must_facts(g)
-        found = 0
-        for nd in g.nodes:
+        env0 = {'self.seg_id': 'ISA'}
+        for a_ in fn.args.args:
+            if a_.arg != 'self':
+                env0[a_.arg] = '<%s>' % a_.arg
+        for t in ('seg_term', 'ele_term', 'subele_term', 'repetition_term'):
+            env0.setdefault('self.' + t, '<%s>' % t)
+        seps = {}
+
+        def on_node(nd, env):
             for x in g.walk_exprs(nd):
                 if isinstance(x, ast.Call) and A.call_target(x)[1] == 'Composite' and len(x.args) >= 2:
-                    facts = IN[nd.id]
-                    if eq_value(facts, 'self.seg_id') == 'ISA':
-                        found += 1
-                        sep = path_of(x.args[1])
-                        ok = sep not in ('subele_term', 'self.subele_term')
-                        yield Ob('segment:%s ISA element is not split at the component separator' % qual, ok, ctx.floc(fn, x),
-                                 '' if ok else 'under seg_id == ISA the Composite separator is %s: ISA16 (the separator itself) would be split' % sep)
-        if not found:
-            yield Ob('segment:%s has an ISA special case' % qual, False, ctx.floc(fn),
-                     'no Composite(...) construction under a `seg_id == \'ISA\'` guard: the ISA would be sub-split')
+                    try:
+                        v = A.ev(x.args[1], env)
+                    except A.NotClosed:
+                        v = '?'
+                    seps.setdefault(id(x), (x, set()))[1].add(v)
+        try:
+            explore(g, env0, on_node=on_node, pinned={'self.seg_id'})
+        except RuntimeError as e:
+            raise AnalysisError('segment:%s: %s' % (qual, e))
+        if not seps:
+            raise AnalysisError('segment:%s builds no Composite' % qual)
+        safe = [x for x, vs in seps.values() if vs and '<subele_term>' not in vs and '?' not in vs]
+        unsafe = [x for x, vs in seps.values() if '<subele_term>' in vs or '?' in vs]
+        if qual == 'Segment.__init__':
+            ok = not unsafe
+            yield Ob('segment:%s ISA element is not split at the component separator' % qual, ok, ctx.floc(fn, (unsafe or safe)[0]),
+                     '' if ok else 'with seg_id == ISA a Composite is still built with the component separator (%s): an ISA field that '
+                     'contains the separator character would be split' % norm(unsafe[0]))
+            yield Ob('segment:%s has an ISA special case' % qual, bool(safe), ctx.floc(fn),
+                     '' if safe else 'no Composite(...) construction with another separator for seg_id == \'ISA\': the ISA would be sub-split')
+        else:
+            yield Ob('segment:%s has an ISA special case' % qual, bool(safe), ctx.floc(fn),
+                     '' if safe else 'no Composite(...) construction with another separator for seg_id == \'ISA\': ISA16 would be sub-split')
+            for x in safe:
+                yield Ob('segment:%s ISA element is not split at the component separator' % qual, True, ctx.floc(fn, x))
     # set: the special case must cover ISA16 (index 15)
     fn = ctx.func('segment', 'Segment.set')
     ok = any(isinstance(n, ast.Compare) and path_of(n.left) == 'ele_idx' and A.const(n.comparators[0]) == 15 for n in ast.walk(fn))
